@@ -1,8 +1,8 @@
-\* thorough: liveness with two calls
+\* liveness under fairness (the server answers, ends streams, lets the DELETE time out)
 SPECIFICATION FairSpec
 CONSTANTS
   NC = 3
-  Profiles <- ProfLiveT
+  Profiles <- ProfLive
   FixCancel = FALSE
   FixStream = FALSE
 PROPERTIES ConnectReturns CallsReturn NotifyReturns CloseReturns FailureEnds
